@@ -624,10 +624,15 @@ pub fn fuzz_jobs(p: &Property) -> Vec<&Box<dyn JobT>> {
 }
 
 pub fn fuzz_one(p: &Property, data: &[u8]) -> Result<(), String> {
+    let js = fuzz_jobs(p);
+    fuzz_one_of(p, &js, data)
+}
+
+/// same, with the list of byte-decodable jobs computed once by the caller
+pub fn fuzz_one_of(p: &Property, js: &[&Box<dyn JobT>], data: &[u8]) -> Result<(), String> {
     if data.len() < 4 {
         return Ok(());
     }
-    let js = fuzz_jobs(p);
     if js.is_empty() {
         return Ok(());
     }
